@@ -48,16 +48,18 @@ pub fn classify(text: &str) -> DocClass {
 }
 
 /// separator mode: 0 = `---`, 1 = `--- # c` style comment line after the marker, 2 = every document closed by `...`
+/// 3 = documents closed by `...` and started implicitly (no `---` at all)
 pub fn stream_text(h: &[u8], sep: u8) -> String {
     let mut s = String::new();
     for &k in h {
         match sep {
             1 => s.push_str("--- # c\n"),
+            3 => {}
             _ => s.push_str("---\n"),
         }
         let body = KINDS[k as usize].1;
         s.push_str(body);
-        if sep == 2 && !body.contains("...") {
+        if (sep == 2 || sep == 3) && !body.contains("...") {
             s.push_str("...\n");
         }
     }
@@ -135,7 +137,12 @@ impl Model {
     }
 
     pub fn judge(&self, h: &[u8]) -> Option<String> {
-        for sep in 0..3u8 {
+        for sep in 0..4u8 {
+            // implicit document starts: not for bodies that are empty (no node at all would be written) or that
+            // cannot end cleanly before the `...` line
+            if sep == 3 && h.iter().any(|&k| KINDS[k as usize].1.is_empty() || matches!(self.classes[k as usize], DocClass::Syntax)) {
+                continue;
+            }
             let text = stream_text(h, sep);
             let (want_items, want_batch) = self.expected(h);
             let names: Vec<&str> = h.iter().map(|&k| KINDS[k as usize].0).collect();
